@@ -56,10 +56,12 @@ def fnv1a (seed : UInt32) (idx : Nat) (payload : String) : UInt32 :=
   payload.toUTF8.foldl (fun h b => mix h b.toUInt32) h2
 
 def harnessOracle : Oracle := fun s payload =>
+  if payload == "nil" then .pass [payload] else     -- an event whose payload is nil is passed on as it is
   let h := fnv1a s.seed s.idx payload
   let x := (h % 100).toNat
   if x < s.wPass then .pass [payload]
-  else if x < s.wPass + s.wTrans then .pass [payload ++ "t" ++ toString s.idx]
+  else if x < s.wPass + s.wTrans then
+    (if (h / 100) % 7 == 0 then .pass ["nil"] else .pass [payload ++ "t" ++ toString s.idx])
   else if x < s.wPass + s.wTrans + s.wFilter then .filter
   else if x < s.wPass + s.wTrans + s.wFilter + s.wError then .error
   else if s.kind = .fanout then
